@@ -94,3 +94,51 @@ Definition rolling_shift_or_diff (gk : list Z) (vals : list V) (ngroups window :
   kscan c0 (shift_step window want_shift) (null o) (rows_of_kernel gk vals mask) (repeat c0 ngroups).
 
 End Rolling.
+
+(* How the real kernel updates the running sum (regenerated: Gen/TablesGen.gen_rolling_sum_updates).  sum_step above is
+   its exact-arithmetic content: t = s + x, the compensation term (s - t) + x resp. (x - t) + s is identically 0 there,
+   and the reset of an emptied window writes the value the sum already has (Proofs/RollingInv: acc = sum of the window).
+   In binary64 the term is the exact rounding error of t (Proofs/CompensatedSum.v, Fast2Sum). *)
+From Coq Require Import String.
+Open Scope string_scope.
+Definition rolling_sum_updates : list string :=
+  ["group_sums = np.zeros(ngroups)";
+   "group_comp = np.zeros(ngroups)";
+   "if group_full";
+   "if not is_null(old_val)";
+   "total = group_sums[key] - old_val";
+   "if not np.isfinite(total)";
+   "else";
+   "if abs(group_sums[key]) >= abs(old_val)";
+   "group_comp[key] += group_sums[key] - total - old_val";
+   "else";
+   "group_comp[key] += -old_val - total + group_sums[key]";
+   "end";
+   "end";
+   "group_sums[key] = total";
+   "if group_non_null[key] == 0";
+   "group_sums[key] = 0.0";
+   "group_comp[key] = 0.0";
+   "end";
+   "end";
+   "end";
+   "if not val_is_null";
+   "total = group_sums[key] + val";
+   "if not np.isfinite(total)";
+   "else";
+   "if abs(group_sums[key]) >= abs(val)";
+   "group_comp[key] += group_sums[key] - total + val";
+   "else";
+   "group_comp[key] += val - total + group_sums[key]";
+   "end";
+   "end";
+   "group_sums[key] = total";
+   "end";
+   "if group_non_null[key] >= min_periods";
+   "window_sum = group_sums[key] + group_comp[key]";
+   "if want_mean";
+   "out[i] = window_sum / group_non_null[key]";
+   "else";
+   "out[i] = window_sum";
+   "end";
+   "end"].
